@@ -1166,6 +1166,10 @@ def analyse(ck, prog, deep=False):
             check_pause(ck, prog, eng, layer)
         check_lm_suppression(ck, prog)
         check_no_port(ck, prog)
+        # "with no port, nothing is sent" presupposes that a disconnected object has no port
+        from .c04 import check_disconnect
+        from ..ebb3 import Engine as _Engine
+        check_disconnect(ck, _Engine(prog, cls), 'C06-D8-no-port-after-disconnect')
         # what a helper sends depends on its arguments, not on earlier calls
         from .. import purity
         reqs = [n for n in public_methods(cls) if not n.startswith('_')
